@@ -246,6 +246,10 @@ def s11_peek_next_agreement(ctx):
         if res is True:
             P = pc.peek_tree(adt)
             r.sample({'type': short, 'peek': tree_str(P)[:80] if P else 'self.peek() (opaque)', 'next': 'returns it on every path'})
+        elif isinstance(res, tuple) and (m.body_inlined(pc.next_fn[adt], only_mut=True) or nb).has_loop():
+            # the returned value comes out of a loop (stages stepped through a slice of references, ...): the per-path comparison below
+            # would judge the zero-iteration path; listed, not decided
+            r.undecided.append('%s::next returns a value computed in a loop: peek / next agreement not decided' % short)
         elif isinstance(res, tuple):
             _, R, P = res
             r.violate(short + '|peek-differs-from-next', '%s::next can return %s while peek() afterwards is %s: peek does not give the value most recently produced' % (
